@@ -20,7 +20,7 @@ void drive_fmasked(const char* type, const char* opname, const std::vector<FPair
             std::array<T, V::width> a, b, res;
             for (unsigned i = 0; i < W; ++i) { const FPair<T>& p = pairs[(base + i + rot * 3) % n]; a[i] = p.a; b[i] = p.b; }
             std::array<bool, V::width> m = mask_pattern<V::width>(k, r);
-            bool ok = false;
+            volatile bool ok = false;
             unsigned focus = (unsigned)(k % W);
             uint32_t cls = fpcls(a[focus], b[focus]) | (m[focus] ? 0x800u : 0u);
             VK_GUARDED(cls, ("m=" + bits_str<V::width>(m) + ",a=" + hex(a[focus]) + ",b=" + hex(b[focus])),
@@ -94,7 +94,7 @@ void run(const char* type) {
                 }
                 if (is_nan_bits(x[i])) { x[i] = lo[i]; }
             }
-            bool ok = false;
+            volatile bool ok = false;
             unsigned focus = (unsigned)(k % W);
             uint32_t cls = fpcls(x[focus], lo[focus]);
             VK_GUARDED(cls, ("x=" + hex(x[focus]) + ",lo=" + hex(lo[focus]) + ",hi=" + hex(hi[focus])), { res = avel::to_array(avel::clamp(V(x), V(lo), V(hi))); ok = true; });
